@@ -34,6 +34,15 @@ func (b Bundle) Fragment(mtu int) (bs []Bundle, err error) {
 	}
 	payloadBlockLen = len(payloadBlock.Value.(*PayloadBlock).Data())
 
+	// A Bundle which already fits, including one with an empty payload, is returned as itself.
+	fitBuff := new(bytes.Buffer)
+	if err = b.WriteBundle(fitBuff); err != nil {
+		return
+	} else if fitBuff.Len() <= mtu {
+		bs = []Bundle{b}
+		return
+	}
+
 	if extFirstOverhead, extOtherOverhead, err = fragmentExtensionBlocksLen(b, mtu); err != nil {
 		return
 	}
@@ -90,8 +99,8 @@ func (b Bundle) Fragment(mtu int) (bs []Bundle, err error) {
 		i += fragPayloadBlockLen
 	}
 
-	if len(bs) == 1 {
-		bs = []Bundle{b}
+	if len(bs) == 0 {
+		err = fmt.Errorf("bundle overhead exceeds MTU")
 	}
 
 	return
